@@ -9,7 +9,10 @@
 //!   c20 csv <enc> <trim> <wrapHex> <r|u>      -> ok b:<hex bytes> (utf-8/16) | ok t:<hex decoded text> (legacy) | panic
 //!   c20 csvfile <enc> <trim> <wrapHex> <r|u>  -> same, through writer::csv::write + reading the file back
 //!   c20 parse <dHex> <qHex> <textHex> -> ok <n> <records> | err      (stateless: ties the two RFC 4180 parsers)
+//!   c20 parsew <wHex> <textHex>       -> ok <n> <records> | err      (stateless: ties the two string-quote readers)
 //!   c20 trim <hex>                    -> <hex of str::trim>           (stateless: ties the White_Space table)
+//! A wrap string of two or more characters is modelled by Umya/Model/CsvWrap.lean (theorem
+//! C20_wrap_string_roundtrip); the harness reads the real text back with its own string-quote reader.
 //! The flag r/u says whether every value of the active sheet survives encode+decode of the selected
 //! encoding (computed with encoding_rs by the generator); `u` lines are outside the model.
 use crate::common::*;
@@ -146,6 +149,66 @@ pub fn parse_csv(d: char, q: char, text: &str) -> Option<Vec<Vec<String>>> {
         records.push(fields);
     }
     Some(records)
+}
+
+/// Reader for text in which every field is wrapped in the string `w` (one or more characters):
+/// `w` opens and closes a field, `w w` inside a field is one `w` of text; after the closing `w`
+/// only `,`, CRLF or the end of the text may follow.  Independent of the Lean reader `parseW`.
+pub fn parse_csv_w(w: &str, text: &str) -> Option<Vec<Vec<String>>> {
+    let w: Vec<char> = w.chars().collect();
+    if w.is_empty() {
+        return None;
+    }
+    let ww: Vec<char> = w.iter().chain(w.iter()).copied().collect();
+    let t: Vec<char> = text.chars().collect();
+    let at = |pos: usize, pat: &[char]| pos + pat.len() <= t.len() && &t[pos..pos + pat.len()] == pat;
+    let mut pos = 0usize;
+    let mut records = vec![];
+    while pos < t.len() {
+        let mut fields = vec![];
+        loop {
+            if !at(pos, &w) {
+                return None;
+            }
+            pos += w.len();
+            let mut f = String::new();
+            loop {
+                if pos >= t.len() {
+                    return None;
+                }
+                if at(pos, &ww) {
+                    f.extend(w.iter());
+                    pos += ww.len();
+                } else if at(pos, &w) {
+                    pos += w.len();
+                    break;
+                } else {
+                    f.push(t[pos]);
+                    pos += 1;
+                }
+            }
+            fields.push(f);
+            if pos >= t.len() {
+                break;
+            }
+            if t[pos] == ',' {
+                pos += 1;
+                continue;
+            }
+            if t[pos] == '\r' && pos + 1 < t.len() && t[pos + 1] == '\n' {
+                pos += 2;
+                break;
+            }
+            return None;
+        }
+        records.push(fields);
+    }
+    Some(records)
+}
+
+/// no proper non-empty prefix of `w` is a suffix of `w` (side condition of C20_wrap_string_roundtrip)
+pub fn unbordered(w: &[char]) -> bool {
+    (1..w.len()).all(|k| w[..k] != w[w.len() - k..])
 }
 
 fn grid_str(g: &[Vec<String>]) -> String {
@@ -355,7 +418,28 @@ pub fn exec(out: &mut Out, st: &mut St, line: &str) -> (String, bool) {
             let q = if wc.is_empty() { Some('"') } else if wc.len() == 1 { Some(wc[0]) } else { None };
             let std_cfg = matches!(q, Some(c) if c != ',' && c != '\r' && c != '\n');
             let degenerate = exp.iter().any(|r| r.is_empty());
-            if !std_cfg || degenerate {
+            if wc.len() >= 2 && !degenerate {
+                // wrap STRING: read the real text back with the string-quote reader
+                let usable = unbordered(&wc) && wrap != "\r\n";
+                let got = decoded.as_ref().ok().and_then(|t| parse_csv_w(&wrap, t));
+                let same = got.as_ref() == Some(&exp);
+                if usable {
+                    out.count("csv.wrapstr_usable");
+                    if same {
+                        out.oracle_ok();
+                    } else {
+                        out.oracle_fail(
+                            Fail::new("csv-wrapstr-grid").with("op", line).with("enc", enc).with("trim", a[3]).with("wrap", hex(&wrap)).with(
+                                "detail",
+                                format!("text={} got={} want={}", decoded.as_ref().map(|t| hex(t)).unwrap_or_default(), got.as_ref().map(|g| grid_str(g)).unwrap_or("err".into()), grid_str(&exp)),
+                            ),
+                        );
+                    }
+                } else {
+                    // self-overlapping string (or CRLF): C20_wrap_string_overlap_fails says reading back may fail
+                    out.count(if same { "csv.wrapstr_unusable_recovered" } else if got.is_none() { "csv.wrapstr_unusable_unreadable" } else { "csv.wrapstr_unusable_misread" });
+                }
+            } else if !std_cfg || degenerate {
                 out.count(if !std_cfg { "csv.oracle_skipped_nonstandard_quote" } else { "csv.oracle_skipped_zero_columns" });
             } else {
                 let fail = |class: &str, detail: String| {
@@ -392,6 +476,17 @@ pub fn exec(out: &mut Out, st: &mut St, line: &str) -> (String, bool) {
             // str::trim on its own (ties the model's White_Space table to char::is_whitespace)
             let v = String::from_utf8(unhex(a[2])).unwrap();
             (hex(v.trim()), !v.is_empty())
+        }
+        "parsew" => {
+            let w = String::from_utf8(unhex(a[2])).unwrap();
+            let t = String::from_utf8(unhex(a[3])).unwrap();
+            match parse_csv_w(&w, &t) {
+                Some(g) => {
+                    let nt = !g.is_empty();
+                    (grid_str(&g), nt)
+                }
+                None => ("err".into(), false),
+            }
         }
         "parse" => {
             let d: Vec<char> = String::from_utf8(unhex(a[2])).unwrap().chars().collect();
@@ -581,6 +676,60 @@ fn gen_case(rng: &mut Rng, v: &mut Vec<String>, idx: u64) {
     }
 }
 
+/// wrap strings of two or more characters: usable ones and self-overlapping ones
+const WRAP_STRINGS: &[&str] = &[
+    "ab", "\"'", "aab", "abb", "<>", "||x", ",x", "x,", "\n\r", "日本", "😀é", "a\r\nb", "abc", "ba",
+    "aa", "aba", "\"\"", "''", "abab", "aaa", "abca", "\r\n", ",,", "日日", "a,a",
+];
+
+/// a case whose values are built from the pieces of the wrap string, then exported with it
+fn gen_wrap_case(rng: &mut Rng, v: &mut Vec<String>, idx: u64) {
+    let w = WRAP_STRINGS[(idx % WRAP_STRINGS.len() as u64) as usize];
+    let wc: Vec<char> = w.chars().collect();
+    v.push("c20 reset".into());
+    let (maxr, maxc) = (rng.range(1, 4), rng.range(1, 4));
+    let n = rng.range(1, 8);
+    for _ in 0..n {
+        let mut val = String::new();
+        for _ in 0..rng.below(7) {
+            match rng.below(8) {
+                0 | 1 => val.push_str(w),
+                2 | 3 => val.push(*rng.pick(&wc)),
+                4 => val.extend(wc[..rng.below(wc.len() as u64 + 1) as usize].iter()),
+                5 => val.extend(wc[rng.below(wc.len() as u64) as usize..].iter()),
+                6 => val.push_str(*rng.pick(COMMON)),
+                _ => val.push_str(*rng.pick(&["a", "b", "x", " "])),
+            }
+        }
+        v.push(format!("c20 set 0 {} {} {}", rng.range(1, maxr), rng.range(1, maxc), hex(&val)));
+    }
+    let enc = *rng.pick(&["utf_8", "utf_8", "utf_16_le", "utf_16_be"]);
+    let op = if rng.chance(1, 12) { "csvfile" } else { "csv" };
+    v.push(format!("c20 {} {} {} {} r", op, enc, rng.below(2), hex(w)));
+}
+
+fn gen_parsew(rng: &mut Rng, v: &mut Vec<String>, n: u64) {
+    for i in 0..n {
+        let w = WRAP_STRINGS[(i % WRAP_STRINGS.len() as u64) as usize];
+        let wc: Vec<char> = w.chars().collect();
+        let mut t = String::new();
+        for _ in 0..rng.below(12) {
+            match rng.below(10) {
+                0..=3 => t.push_str(w),
+                4 => t.push(*rng.pick(&wc)),
+                5 | 6 => t.push(','),
+                7 => t.push_str("\r\n"),
+                8 => t.push_str(*rng.pick(&["\r", "\n", "x"])),
+                _ => t.push_str(*rng.pick(&["a", "b"])),
+            }
+        }
+        v.push(format!("c20 parsew {} {}", hex(w), hex(&t)));
+    }
+    for (w, t) in [("", "x"), ("ab", ""), ("ab", "abab"), ("ab", "abab,"), ("ab", "abab\r\n"), ("ab", "abab\r"), ("ab", "ababab"), ("ab", "abababab"), ("aa", "aaaaa\r\n")] {
+        v.push(format!("c20 parsew {} {}", hex(w), hex(t)));
+    }
+}
+
 fn gen_parse(rng: &mut Rng, v: &mut Vec<String>, n: u64) {
     let alpha = [",", ",", "\"", "\"", "'", "\r\n", "\r\n", "\r", "\n", "a", "b", " ", ";", "é", "😀"];
     for _ in 0..n {
@@ -653,10 +802,20 @@ pub fn gen(tier: Tier, seed: u64) -> Vec<String> {
     for t in ["", " ", "  a  b  ", "\t\r\n", "\u{a0}\u{3000}", " \u{1}x\u{1} "] {
         v.push(format!("c20 trim {}", hex(t)));
     }
+    // witnesses of C20_wrap_string_overlap_fails (self-overlapping wrap strings) and the demo grid of C20Wrap.lean
+    for (val, wrap) in [("a", "aa"), ("ab", "aba"), ("aaa", "aa"), ("xaby", "ab")] {
+        v.push("c20 reset".into());
+        v.push(format!("c20 set 0 1 1 {}", hex(val)));
+        v.push(format!("c20 csv utf_8 0 {} r", hex(wrap)));
+    }
     let cases = if tier == Tier::Thorough { 200_000 } else { 5_000 };
     for i in 0..cases {
         gen_case(&mut rng, &mut v, i);
     }
+    for i in 0..(if tier == Tier::Thorough { 60_000 } else { 3_000 }) {
+        gen_wrap_case(&mut rng, &mut v, i);
+    }
+    gen_parsew(&mut rng, &mut v, if tier == Tier::Thorough { 300_000 } else { 20_000 });
     gen_parse(&mut rng, &mut v, if tier == Tier::Thorough { 1_000_000 } else { 60_000 });
     v
 }
